@@ -136,11 +136,98 @@ def run(rep):
                              'samples': [recs[idx[0]]['trace'][:3]] if idx else []})
     finally:
         m.close()
+    nested_required(rep, g)
     if not res['ok'] or res['forbidden'] or not res['build_ok']:
         if not rep.violations:
             rep.violation('Properties/C04.v no longer checks (theorem %s)' % res['failing'], {'theorem': res['failing'], 'log': res['log'][-3000:]}, found_input=False)
     rep.assumptions += ['"valid for the attribute\'s simple type" is the verdict of the type class (tied to the schema by C05)',
                         'the declaration table given to the model is the library\'s (tied to the schema by C03)']
+
+
+def nested_required(rep, g):
+    """a schema-generated, complete document in which ONE node lacks ONE required attribute, built through the API: to_string() of the ROOT must
+    refuse it (the refusal has to reach every depth, leaf elements included)"""
+    import copy
+    import random
+    from . import docgen, docs as docs_mod
+    rng = random.Random(rep.seed * 29 + 5)
+    G = docgen.Gen(g, rng)
+    quick = rep.tier == 'quick'
+    # element names whose type has a required attribute, and the elements that can hold them
+    req_of = {}
+    for name, tys in g['elements'].items():
+        t = tys[0][6:] if tys[0].startswith('<anon>') else tys[0]
+        rq = [a[0] for a in (g['ctypes'].get(t) or {'attrs': []})['attrs'] if a[2] and ':' not in a[0]]
+        if rq:
+            req_of[name] = rq
+    from . import rx
+    parents = {}
+    for name, tys in g['elements'].items():
+        t = tys[0][6:] if tys[0].startswith('<anon>') else tys[0]
+        p_ = g['xsd_particles'].get(t)
+        if p_ and name not in ('score-partwise', 'score-timewise'):
+            for leaf in rx.alphabet(p_):
+                if leaf in req_of:
+                    parents.setdefault(leaf, []).append((name, p_))
+    cases = []
+    seen = set()
+    for el in sorted(req_of):
+        ps = parents.get(el, [])
+        rng.shuffle(ps)
+        for pname, part in ps[:(2 if quick else 8)]:
+            w = rx.cover_word(rx.of_tree(part), [el], limit=4000)
+            if w is None:
+                continue
+            d = G.element(pname, 9, 2)                       # attributes and text of the parent; children replaced by a word that contains el
+            d['kids'] = [G.element(s_, 1, 2) for s_ in w]
+            for gp in (None, 'wrap'):
+                doc = d
+                target_depth = 1
+                if gp == 'wrap':
+                    # one level further down: a grandparent, when the schema offers one
+                    gps = [(n2, p2) for n2, tys2 in g['elements'].items() for p2 in [g['xsd_particles'].get(tys2[0][6:] if tys2[0].startswith('<anon>') else tys2[0])]
+                           if p2 and pname in rx.alphabet(p2) and n2 not in ('score-partwise', 'score-timewise')]
+                    if not gps:
+                        continue
+                    n2, p2 = rng.choice(gps)
+                    w2 = rx.cover_word(rx.of_tree(p2), [pname], limit=4000)
+                    if w2 is None:
+                        continue
+                    doc = G.element(n2, 9, 2)
+                    placed = False
+                    kids2 = []
+                    for s_ in w2:
+                        if s_ == pname and not placed:
+                            kids2.append(copy.deepcopy(d))
+                            placed = True
+                        else:
+                            kids2.append(G.element(s_, 1, 2))
+                    doc['kids'] = kids2
+                    target_depth = 2
+                whole = copy.deepcopy(doc)
+                cut = copy.deepcopy(doc)
+                holder = cut if target_depth == 1 else [k for k in cut['kids'] if k['tag'] == pname][0]
+                n = [k for k in holder['kids'] if k['tag'] == el][0]
+                have = [x for x in n['attrs'] if x[0] in req_of[el]]
+                if not have:
+                    continue
+                a = rng.choice(have)
+                n['attrs'].remove(a)
+                seen.add((doc['tag'], el))
+                cases.append((whole, cut, el, a[0], target_depth, bool(n['kids'])))
+    ro, _ = docs_mod.run_docs(api=[c[0] for c in cases] + [c[1] for c in cases])
+    r_whole, r_cut = ro[:len(cases)], ro[len(cases):]
+    n_checked = 0
+    for (whole, cut, tag, attr, dp, haskids), rw, rc in zip(cases, r_whole, r_cut):
+        if 'exc' in rw and rw['step'] in ('build', 'emit1'):
+            continue                      # the complete document is itself refused (a recorded finding of another check): nothing to compare
+        n_checked += 1
+        refused = 'exc' in rc and rc['step'] == 'emit1' and rc['exc'] == 'XSDAttributeRequiredException'
+        if not refused:
+            what = 'is serialised' if 'exc' not in rc or rc['step'] not in ('build', 'emit1') else 'raises %s at %s' % (rc['exc'], rc['step'])
+            rep.finding_or_violation('C04:nested-required:%s' % tag, '<%s> holding a <%s> (depth %d, %s) that lacks its required attribute %s: to_string() of the root %s' % (
+                cut['tag'], tag, dp, 'with children' if haskids else 'leaf', attr, what), {'document_built_through_the_api': cut, 'element': tag, 'missing_required_attribute': attr, 'observed': rc})
+    rep.coverage['nested_required_attribute_probes'] = {'documents': n_checked, 'distinct_root_element_pairs': len(seen)}
 
 
 def replay(path):
